@@ -35,11 +35,19 @@ REFUTED = [
 
 def sweep(rng, n):
     from harness.oracles import separation as O
-    fs = O.sweep(rng, max(1, n // 40))
+    fs = O.sweep(rng, max(1, n // 20))
     return [f for f in fs if ALL.is_known(f) is None]
 
 
-oracle_search = propgen.budgeted([sweep])
+def targeted(rng, n):
+    from harness.oracles import separation as O
+    if getattr(targeted, 'done', False):       # a fixed battery: once per run
+        return []
+    targeted.done = True
+    return [f for f in O.targeted() if ALL.is_known(f) is None]
+
+
+oracle_search = propgen.budgeted([targeted, sweep])
 ORACLE_BUDGET = {'quick': 30, 'thorough': 300}
 
 
@@ -49,7 +57,8 @@ def oracle_at(unit, case, impl):
 
 def diagnose(b):
     import random
-    return sweep(random.Random(core.seed() + 19), 120)[:2]
+    from harness.oracles import separation as O
+    return ([f for f in O.targeted() if ALL.is_known(f) is None] or sweep(random.Random(core.seed() + 19), 120))[:2]
 
 
 def known_match(f, known):
